@@ -327,10 +327,48 @@ pub fn judge_ser(w: [f64; 2]) -> Verdict {
     Verdict::Pass
 }
 
+/// history for the text path: format `prev`, then `w`, with the same trait / flag / precision, on a fresh thread; the
+/// text of `w` must be what it is on an empty history (a cache of the last rendering keyed on `==` would confuse
+/// values that differ only in the sign of a zero word)
+pub fn judge_text_after(prev: [f64; 2], w: [f64; 2]) -> Verdict {
+    let args = [prev[0].to_bits(), prev[1].to_bits(), w[0].to_bits(), w[1].to_bits()];
+    if !dd_valid_fast(w[0], w[1]) || !dd_valid_fast(prev[0], prev[1]) {
+        return Verdict::Skip;
+    }
+    let names = ["Display", "LowerExp", "UpperExp"];
+    let r = std::thread::scope(|sc| {
+        sc.spawn(|| {
+            let (xp, x) = (st::mk(prev), st::mk(w));
+            for tr in 0..3u8 {
+                for plus in [false, true] {
+                    for p in [None, Some(0usize), Some(2), Some(17)] {
+                        let got = match api(|| {
+                            let _ = fmt_tf(&xp, tr, plus, p);
+                            fmt_tf(&x, tr, plus, p)
+                        }) {
+                            Ok(s) => s,
+                            Err(m) => return Verdict::fail("history: no_panic", "hist_text", &args, format!("panic: {}", m), "a string".into(), "panic"),
+                        };
+                        let sign = if w[1].is_sign_negative() { "-" } else { "+" };
+                        let want = format!("{} {} {}", fmt_f64(w[0], tr, plus, p), sign, fmt_f64(w[1].abs(), tr, false, p));
+                        if got != want {
+                            return Verdict::fail("history: text_layout", "hist_text", &args, format!("[{}{} {:?}] {:?} right after formatting {} the same way", names[tr as usize], if plus { " +" } else { "" }, p, got, show_dd(prev)), format!("{:?}", want), "wrong_text");
+                        }
+                    }
+                }
+            }
+            Verdict::Pass
+        })
+        .join()
+    });
+    r.unwrap_or_else(|_| Verdict::fail("history: no_panic", "hist_text", &args, "the judge panicked".into(), "a verdict".into(), "panic"))
+}
+
 pub fn replay(call: &str, _clause: &str, args: &[u64]) -> Verdict {
     match call {
         "deserialize" => judge_script(&script_from_args(args)),
         "serialize" => judge_ser([f64::from_bits(args[0]), f64::from_bits(args[1])]),
+        "hist_text" => judge_text_after([f64::from_bits(args[0]), f64::from_bits(args[1])], [f64::from_bits(args[2]), f64::from_bits(args[3])]),
         _ => {
             // a text transition: the ordinary precisions first, then the long ones (a recorded violation may come from either phase)
             let w = [f64::from_bits(args[0]), f64::from_bits(args[1])];
@@ -525,6 +563,26 @@ pub fn run(r: &mut Runner) {
             for i in (c * 256)..((c + 1) * 256).min(ngs) {
                 rec.record(l, (1u64 << 58) + (i * 2) as u64, judge_text(gs[i]));
                 rec.record(l, (1u64 << 58) + (i * 2 + 1) as u64, judge_ser(gs[i]));
+            }
+        });
+    }
+    {
+        // histories of the text path: every ordered pair of values that are equal under == word by word or share a high
+        // word (sign-of-zero twins, low-word twins), formatted one after the other with identical flags
+        let mut fam: Vec<Vec<[f64; 2]>> = vec![];
+        for h in [1.0, -1e-300, 0.0, 123.5, 1e22] {
+            let e = if h == 0.0 { 0.0 } else { h * 2f64.powi(-60) };
+            let mut g: Vec<[f64; 2]> = vec![[h, 0.0], [h, -0.0], [-h, 0.0], [-h, -0.0], [h, e], [h, -e]];
+            g.retain(|w| dd_valid_fast(w[0], w[1]));
+            fam.push(g);
+        }
+        let pairs: Vec<([f64; 2], [f64; 2])> = fam.iter().flat_map(|g| g.iter().flat_map(move |a| g.iter().map(move |b| (*a, *b)))).collect();
+        let np = pairs.len();
+        r.notes.push(format!("text histories: {} ordered pairs of twin values (same words under ==, signs of zero words, low-word twins) x 3 traits x {{plain,+}} x 4 precisions, the second value formatted right after the first on a fresh thread", np));
+        r.par("histories: text of twin values", np.div_ceil(8), np as u64, |c, l| {
+            for i in (c * 8)..((c + 1) * 8).min(np) {
+                l.transitions += 23;
+                rec.record(l, (1u64 << 38) + i as u64, judge_text_after(pairs[i].0, pairs[i].1));
             }
         });
     }
